@@ -1018,6 +1018,12 @@ type trig struct {
 	i   uint32
 	t   int // vote type; -1 = context change
 	thr uint64
+	// for a vote: its block and the seats counted for that block right after it was
+	// booked - the moment the implementation judges the count.  (In a During pair the
+	// second event may be a double vote that removes weight again; the precommit the
+	// first event triggered is judged at the first event's moment.)
+	h     int
+	w, wv uint64
 }
 
 func (o *oracle) certAtCtx(r uint64, i uint32) bool {
@@ -1083,7 +1089,7 @@ func (o *oracle) book(op *Op, ob *Obs, skipCount bool, trigs *[]trig) {
 			o.certAt = map[[2]uint64]bool{}
 		}
 		o.certAt[[2]uint64{op.R, uint64(op.I)}] = op.Cert
-		*trigs = append(*trigs, trig{op.R, op.I, -1, 0})
+		*trigs = append(*trigs, trig{r: op.R, i: op.I, t: -1})
 	case "msg":
 		m := op.M
 		accepted := !m.NoVote && m.Sig == 0 && m.StakeOk && o.credSeen(m) && !(m.T == 3 && !o.h.Env.CertpOk)
@@ -1141,7 +1147,8 @@ func (o *oracle) book(op *Op, ob *Obs, skipCount bool, trigs *[]trig) {
 			}
 		}
 		if accepted && m.Kind == 0 {
-			*trigs = append(*trigs, trig{m.R, m.I, m.T, m.Thr})
+			tl := o.tal(tkey{m.R, m.I, m.T})
+			*trigs = append(*trigs, trig{r: m.R, i: m.I, t: m.T, thr: m.Thr, h: m.H, w: tl.weight(m.H), wv: tl.validWeight(m.H)})
 		}
 	}
 }
@@ -1188,32 +1195,35 @@ func (o *oracle) events(trigs []trig, ob *Obs) {
 			if e.T == 1 { // a precommit goes out
 				// thresholds that may have been crossed for prevotes of exactly this (round, index):
 				// an accepted chamber prevote delivered there, or the voter's own prevote cast there
-				var thrs []uint64
+				type cand struct{ thr, w, wv uint64 }
+				var cands []cand
+				cur := o.tal(tkey{e.R, e.I, 0})
 				for _, tg := range trigs {
 					if tg.r != e.R || tg.i != e.I {
 						continue
 					}
-					if tg.t == 0 {
-						thrs = append(thrs, tg.thr)
+					if tg.t == 0 && tg.h == e.H {
+						cands = append(cands, cand{tg.thr, tg.w, tg.wv})
 					} else if tg.t == -1 {
 						if ov := ownLookup(o.h, e.R, e.I, 0); ov != nil {
-							thrs = append(thrs, ov.Thr)
+							cands = append(cands, cand{ov.Thr, cur.weight(e.H), cur.validWeight(e.H)})
 						}
 					}
 				}
-				w := o.tal(tkey{e.R, e.I, 0}).weight(e.H)
-				wv := o.tal(tkey{e.R, e.I, 0}).validWeight(e.H)
+				w, wv := cur.weight(e.H), cur.validWeight(e.H)
 				ok, okValid := false, false
 				var thr uint64
-				for _, x := range thrs {
-					thr = x
-					if w >= uint64(goQuorum(x, true)) {
+				for _, c := range cands {
+					thr, w, wv = c.thr, c.w, c.wv
+					if c.w >= uint64(goQuorum(c.thr, true)) {
 						ok = true
-						if wv >= uint64(goQuorum(x, true)) {
+						if c.wv >= uint64(goQuorum(c.thr, true)) {
 							okValid = true
 						}
+						break
 					}
 				}
+				thrs := cands
 				if !ok {
 					o.hit(fmt.Sprintf("precommit_without_quorum: precommit for block %d at (%d,%d): prevote seats counted for it in that round index are %d, quorum %d of threshold %d (prevote quorum crossings of this event in that index: %d)", e.H, e.R, e.I, w, goQuorum(thr, true), thr, len(thrs)))
 				} else if !okValid {
